@@ -145,7 +145,7 @@ def run_history(ctx, hist, variant, kind):
         dd = first_diff(got_d, st["disk"], "file")
         if dm or dd:
             clause = CLAUSE_OF[op["name"]]
-            if dd and op["name"] in ("write", "fn_remove", "fn_sort"):
+            if dd and not dm and op["name"] in ("write", "fn_remove", "fn_sort"):
                 clause = "C17_WriteOmitsExactlyRemoved" if len(got_d["secs"]) != len(st["disk"]["secs"]) else "C17_MdocRoundTrip"
             ctx.fail(clause, "step %d %s: %s" % (i, op, dm or dd), case, sig)
             break
@@ -381,8 +381,12 @@ def gen_table_case(rng, idx):
     r = rng.random()
     n = rng.choice([1, 2, rng.randint(1, 80), rng.randint(1, 80), 80])
     if r < 0.12:
-        return {"kind": "loader", "id": idx, "what": "tlt", "vals": gen_tilts(rng, n), "sort": rng.random() < 0.7,
-                "input": rng.choice(["file", "file", "array", "list", "mdoc"])}
+        inp = rng.choice(["file", "file", "array", "list", "mdoc", "mdoc"])
+        vals = gen_tilts(rng, n)
+        if inp == "mdoc":
+            rng.shuffle(vals)                                 # an mdoc lists the images in acquisition order
+        return {"kind": "loader", "id": idx, "what": "tlt", "vals": vals, "sort": rng.random() < 0.7 or inp != "mdoc",
+                "input": inp}
     if r < 0.22:
         return {"kind": "loader", "id": idx, "what": "dose", "vals": [rng.randint(0, 30000) for _ in range(n)],
                 "input": rng.choice(["file", "file", "array", "list"])}
@@ -685,11 +689,13 @@ def run(ctx):
     def want(x):
         return not only or x in only
 
-    if want("l1"):
-        ctx.tlc("MC_TiltMeta", cfg(2, "none"), name="mdoc_small", workers=4)
-        ctx.exhaustive["L1_mdoc_machine_depth2"] = True
+    if want("l1") and not ctx.quick:
+        ctx.tlc("MC_TiltMeta", cfg(3, "none"), name="mdoc_small_depth3", workers=4)
+        ctx.exhaustive["L1_mdoc_machine_depth3"] = True
     if want("l2"):
+        # all clauses are checked in this run as well (every depth-2 history is a state); it doubles as L1 of the quick tier
         res = ctx.tlc("MC_TiltMeta", cfg(2, "hist"), name="mdoc_hist", workers=1)
+        ctx.exhaustive["L1_mdoc_machine_depth2"] = True
         hists = [r["hist"] for r in res.records if "hist" in r]
         seen, uniq = set(), []
         for h in hists:
@@ -697,14 +703,14 @@ def run(ctx):
             if k not in seen:
                 seen.add(k)
                 uniq.append(h)
-        budget = ctx.pick(500, 20000)
+        budget = ctx.pick(200, 3000)
         chosen = sorted(uniq, key=lambda h: core.stable_hash([ctx.seed, h]))[:budget]
         ctx.exhaustive["L2_mdoc_histories"] = len(chosen) == len(uniq)
         ctx.extra["histories_emitted"] = len(uniq)
         ctx.extra["histories_replayed"] = len(chosen)
         for i, h in enumerate(chosen):
             run_history(ctx, h, (ctx.seed * 7919 + i) % 144, "mdoc-history")
-        nsim = ctx.pick(60, 1500)
+        nsim = ctx.pick(30, 1000)
         res = ctx.tlc("MC_TiltMeta", cfg(6, "hist"), name="mdoc_sim", simulate=nsim, depth=8, seed=ctx.seed + 1, workers=1)
         seen, nb = set(), 0
         for r in res.records:
@@ -715,19 +721,19 @@ def run(ctx):
                 continue
             seen.add(k)
             nb += 1
-            if nb > ctx.pick(120, 3000):
+            if nb > ctx.pick(40, 1000):
                 break
             run_history(ctx, r["hist"], (ctx.seed * 31 + nb) % 144, "mdoc-behaviour")
         ctx.extra["behaviours_replayed"] = nb
     if want("l3"):
-        total = ctx.pick(60, 600)
+        total = ctx.pick(25, 250)
         nmax = 80
         cases = [gen_mdoc_case(ctx.rng, i + 1, nmax) for i in range(total)]
         corrupt = os.environ.get("VERIF_C17_CORRUPT") or None
         for b in range(0, total, 100):
             run_random_mdocs(ctx, cases[b:b + 100], corrupt=corrupt if b == 0 else None)
     if want("tables"):
-        total = ctx.pick(120, 3000)
+        total = ctx.pick(80, 2500)
         cases = [gen_table_case(ctx.rng, 100000 + i) for i in range(total)]
         corrupt = os.environ.get("VERIF_C17_CORRUPT") or None
         for b in range(0, total, 500):
